@@ -196,6 +196,67 @@ def check_grouped(rec, rng):
                         rec.check(np.allclose(m[np.ix_(idx, idx)], kr), 'GroupedSite:operator', f'{gname} != kron (with JW on the left)', inp)
 
 
+def check_op_management(rec, rng):
+    """renaming / adding / removing operators of a site keeps everything that is attached to an operator: its matrix, whether it needs a
+    Jordan-Wigner string, its hermitian-conjugate partner - and a chain built from the edited site still satisfies the CAR"""
+    import copy
+    from tenpy.networks import site as S
+    from tenpy.networks.mps import MPS
+    for mk, nm in ((lambda: S.FermionSite('N'), 'FermionSite(N)'), (lambda: S.SpinHalfFermionSite('N', 'Sz'), 'SpinHalfFermionSite(N,Sz)'),
+                   (lambda: S.SpinHalfSite('Sz'), 'SpinHalfSite(Sz)'), (lambda: S.BosonSite(2, 'N'), 'BosonSite(2,N)')):
+        s0 = mk()
+        for name in sorted(s0.opnames):
+            if name in ('Id', 'JW'):
+                continue
+            s = mk()
+            inp = {'site': nm, 'op': name}
+            rec.begin(f'C12 rename_op {inp}')
+            rec.case(('rename', nm, name), bool(s.op_needs_JW(name)))
+            mat, jw, hc = s.get_op(name).to_ndarray().copy(), s.op_needs_JW(name), s.hc_ops.get(name)
+            ok, _ = rec.guarded('Site.rename_op:exception', lambda: s.rename_op(name, name + '_renamed'), inp)
+            if not ok:
+                continue
+            new = name + '_renamed'
+            good = new in s.opnames and name not in s.opnames and np.array_equal(s.get_op(new).to_ndarray(), mat)
+            rec.check(good, 'Site.rename_op:operator', 'matrix / name set after renaming', inp)
+            rec.check(bool(s.op_needs_JW(new)) == bool(jw), 'Site.rename_op:needs-JW-lost', f'needs JW before: {jw}, after: {s.op_needs_JW(new)}', inp)
+            if hc is not None:
+                exp_hc = new if hc == name else hc
+                rec.check(s.hc_ops.get(new) == exp_hc and (hc == name or s.hc_ops.get(hc) == new), 'Site.rename_op:hc-partner',
+                          f'hc_ops[{new}] = {s.hc_ops.get(new)}, expected {exp_hc}', inp)
+            ok, _ = rec.guarded('Site.rename_op:test_sanity', s.test_sanity, inp)
+        # add_op / remove_op
+        s = mk()
+        some = sorted(n for n in s.opnames if n not in ('Id', 'JW'))[0]
+        for need_JW in (False, True):
+            inp = {'site': nm, 'need_JW': need_JW}
+            rec.begin(f'C12 add_op {inp}')
+            ok, _ = rec.guarded('Site.add_op:exception', lambda: s.add_op(f'X{int(need_JW)}', s.get_op(some).to_ndarray(), need_JW=need_JW, hc=False), inp)
+            if ok:
+                rec.check(bool(s.op_needs_JW(f'X{int(need_JW)}')) == need_JW, 'Site.add_op:needs-JW', '', inp)
+                s.remove_op(f'X{int(need_JW)}')
+                rec.check(f'X{int(need_JW)}' not in s.opnames and f'X{int(need_JW)}' not in s.need_JW_string and f'X{int(need_JW)}' not in s.hc_ops,
+                          'Site.remove_op:leftovers', '', inp)
+    # a fermion chain whose operators were renamed still anticommutes across sites
+    s = S.FermionSite('N')
+    s.rename_op('C', 'c')
+    s.rename_op('Cd', 'cd')
+    L = 4
+    from .b_C10 import mpo_dense
+    from tenpy.networks.terms import TermList
+    from tenpy.networks.mpo import MPOGraph
+    sites = [s] * L
+    plain = [S.FermionSite('N')] * L
+    for i, j in ((0, 2), (1, 3), (2, 0)):
+        inp = {'sites': 'FermionSite with C -> c, Cd -> cd', 'term': [('cd', i), ('c', j)]}
+        rec.begin(f'C12 renamed fermions {inp}')
+        ok, M = rec.guarded('renamed-fermions:term->MPO:exception',
+                            lambda: mpo_dense(MPOGraph.from_term_list(TermList([[('cd', i), ('c', j)]], [1.0]), sites, 'finite').build_MPO(), sites), inp)
+        if ok:
+            exp = mpsgen.op_dense(plain, [('Cd', i), ('C', j)])
+            rec.check(np.allclose(M, exp), 'renamed-fermions:term->MPO', 'differs from the fermionic operator (hard-core bosons?)', inp)
+
+
 def check_car(rec, rng, quick):
     """canonical anticommutation relations of fermionic operators placed through the JW machinery"""
     from tenpy.networks import site as S
@@ -298,6 +359,7 @@ def run(rec):
         ok, s = rec.guarded('site:exception', lambda: check_site(rec, name, fam, kind, reference), {'site': name})
         rec.case(('site', name), True, sample={'site': name} if name.startswith('FermionSite(N') else None)
     check_grouped(rec, rng)
+    check_op_management(rec, rng)
     check_car(rec, rng, quick)
     hetero_term_correlations(rec, rng, quick)
 
